@@ -41,6 +41,9 @@ type Seg struct {
 	Kind string `json:"kind"`
 	S    string `json:"s,omitempty"`
 	T    string `json:"t,omitempty"`
+	// Reprint: the expression is embedded as the implementation's own printer writes it (parse, then String()), which is what
+	// template rewrites in migrations emit; it must still denote the same string
+	Reprint bool `json:"reprint,omitempty"`
 }
 
 type Case struct {
@@ -51,6 +54,21 @@ type Case struct {
 func q(s string) string { return strconv.Quote(s) }
 
 func (s Seg) source() string {
+	src := s.written()
+	if s.Reprint && len(src) > 3 && strings.HasPrefix(src, "@(") {
+		var printed string
+		if p := guard.Inline(func() {
+			if parsed, err := excellent.Parse(src[2:len(src)-1], nil); err == nil && parsed != nil {
+				printed = parsed.String()
+			}
+		}); p == nil && printed != "" {
+			return "@(" + printed + ")"
+		}
+	}
+	return src
+}
+
+func (s Seg) written() string {
 	switch s.Kind {
 	case "plain", "sep":
 		return s.S
@@ -303,13 +321,13 @@ func drawCase(t *rapid.T) Case {
 		case 8:
 			segs = append(segs, Seg{Kind: "printed", S: gen.Text(t, "s")})
 		case 9, 10:
-			segs = append(segs, Seg{Kind: "cat", S: gen.Text(t, "s"), T: gen.Text(t, "t")})
+			segs = append(segs, Seg{Kind: "cat", S: gen.Text(t, "s"), T: gen.Text(t, "t"), Reprint: rapid.IntRange(0, 3).Draw(t, "reprint") == 0})
 		case 11:
-			segs = append(segs, Seg{Kind: "fn", S: gen.Text(t, "s")})
+			segs = append(segs, Seg{Kind: "fn", S: gen.Text(t, "s"), Reprint: rapid.IntRange(0, 3).Draw(t, "reprint") == 0})
 		case 12:
-			segs = append(segs, Seg{Kind: "pick", S: gen.Text(t, "s"), T: gen.Text(t, "t")})
+			segs = append(segs, Seg{Kind: "pick", S: gen.Text(t, "s"), T: gen.Text(t, "t"), Reprint: rapid.IntRange(0, 3).Draw(t, "reprint") == 0})
 		default:
-			segs = append(segs, Seg{Kind: "idx", S: gen.Text(t, "s"), T: gen.Text(t, "t")})
+			segs = append(segs, Seg{Kind: "idx", S: gen.Text(t, "s"), T: gen.Text(t, "t"), Reprint: rapid.IntRange(0, 3).Draw(t, "reprint") == 0})
 		}
 	}
 	if !needSep && rapid.IntRange(0, 5).Draw(t, "atend") == 0 {
